@@ -34,7 +34,7 @@ var c19OpNames = []string{
 	"build-list", "build-set", "build-catalog", "list-append", "list-insert", "list-remove", "list-set", "set-add-remove",
 	"list-search", "set-search", "list-sort", "sorter-sort", "list-reverse", "list-shuffle", "collate", "list-String",
 	"notation-FormatValue", "module-FormatValue", "set-catalog-String", "parse", "iterate", "stack-queue", "catalog-sort", "class-accessors",
-	"sorter-custom", "array-sort",
+	"sorter-custom", "array-sort", "many-type-accessors", "format-deep",
 }
 
 var c19Families = map[string][]int{
@@ -43,10 +43,10 @@ var c19Families = map[string][]int{
 	"search":  {8, 9},
 	"sort":    {10, 11, 12, 13, 22, 24, 25},
 	"collate": {14},
-	"format":  {15, 16, 17, 18},
+	"format":  {15, 16, 17, 18, 27},
 	"parse":   {19},
 	"iterate": {20, 21},
-	"class":   {23},
+	"class":   {23, 26},
 }
 
 var c19FamilyNames = []string{"build", "mutate", "search", "sort", "collate", "format", "parse", "iterate", "class"}
@@ -117,7 +117,10 @@ func c19Run[T any](typ string, mk func(int) T, ops []c19Op, classes *c19Classes)
 	emit := func(name string, v any) { log = append(log, name+"="+fmt.Sprintf("%v", v)) }
 	vals := func(n, a int) []T {
 		if n == 5 {
-			n = 40 // a size beyond small-input fast paths
+			n = 40 // sizes beyond small-input fast paths
+			if a%3 == 2 {
+				n = 200
+			}
 		}
 		out := make([]T, 0, n)
 		for i := 0; i < n; i++ {
@@ -295,6 +298,33 @@ func c19Run[T any](typ string, mk func(int) T, ops []c19Op, classes *c19Classes)
 				emit(name, catalog.GetKeys().AsArray())
 				catalog.ReverseValues()
 				emit(name+".rev", catalog.GetKeys().AsArray())
+			case 26:
+				// first use of the Array / List registries for many element types
+				// at once (each goroutine asks for all of them)
+				classes.note("List[int8]", col.List[int8](notation))
+				classes.note("List[int16]", col.List[int16](notation))
+				classes.note("List[uint]", col.List[uint](notation))
+				classes.note("List[float64]", col.List[float64](notation))
+				classes.note("List[bool]", col.List[bool](notation))
+				classes.note("List[rune]", col.List[rune](notation))
+				classes.note("List[uint64]", col.List[uint64](notation))
+				classes.note("Array[int8]", col.Array[int8](notation))
+				classes.note("Array[int16]", col.Array[int16](notation))
+				classes.note("Array[uint]", col.Array[uint](notation))
+				classes.note("Array[float64]", col.Array[float64](notation))
+				classes.note("Array[bool]", col.Array[bool](notation))
+				classes.note("Array[rune]", col.Array[rune](notation))
+				classes.note("Array[uint64]", col.Array[uint64](notation))
+				classes.note("Set[float64]", col.Set[float64](notation))
+				classes.note("Stack[bool]", col.Stack[bool](notation))
+				emit(name, "ok")
+			case 27:
+				// format a value nested several levels deep (own notation, own data)
+				var v any = mk(op.A)
+				for d := 0; d < 3+op.B; d++ {
+					v = col.List[any](notation).MakeFromArray([]any{v, d})
+				}
+				emit(name, notation.FormatValue(v))
 			case 23:
 				// first-use races on the class registries
 				classes.note("List["+typ+"]", col.List[T](notation))
@@ -376,9 +406,9 @@ func (propC19) Run(ctx *Ctx, index int) {
 		ctx.Res.ProgKey = jsonKey(dp)
 		return
 	}
-	maxTasks := 6
+	maxTasks := 8
 	if ctx.Tier == "thorough" {
-		maxTasks = 12
+		maxTasks = 16
 	}
 	prog := genC19(ctx.Prog, maxTasks)
 	ctx.Res.Desc = prog
